@@ -16,11 +16,11 @@ vars == <<ms, pc, bad, nextScope, emitted>>
 \* enumerating them as one dimension keeps the configuration set small
 \* reqcancel: the request's context is cancelled while the handler runs and the handler stays until the scope was closed by
 \* its context watcher - the life cycle is the plain one (the close at the end of the request is the second, a no-op)
-Extras == {"none", "outer", "closefail", "defeh", "replacectx", "noabort", "mwcanceled", "reqcancel"}
+Extras == {"none", "outer", "closefail", "defeh", "replacectx", "noabort", "mwcanceled", "reqcancel", "mwpanic"}
 Cfgs == {[fw |-> f, nmw |-> n, mwfail |-> mf, handler |-> h, registered |-> rg, method |-> m, recovery |-> rc,
           scopemw |-> sm, provclosed |-> pcl, batch |-> b, outer |-> x = "outer", closefail |-> x = "closefail",
           defeh |-> x = "defeh", replacectx |-> x = "replacectx", noabort |-> x = "noabort", mwcanceled |-> x = "mwcanceled",
-          reqcancel |-> x = "reqcancel"] :
+          reqcancel |-> x = "reqcancel", mwpanic |-> x = "mwpanic"] :
             f \in Frameworks, n \in 0..MaxMw, mf \in 0..MaxMw, h \in {"ok", "err", "panic", "handle"}, rg \in BOOLEAN,
             m \in {"ok", "panic"}, rc \in BOOLEAN, sm \in BOOLEAN, pcl \in BOOLEAN, b \in Batches, x \in Extras}
 \* drop combinations that only repeat others
@@ -38,6 +38,7 @@ Relevant(c) == /\ c.mwfail <= c.nmw
                /\ (c.noabort => (c.fw = "gin" /\ c.handler = "handle" /\ c.registered /\ c.scopemw /\ ~c.provclosed /\ c.mwfail > 0
                                  /\ ~c.outer /\ ~c.closefail /\ ~c.defeh /\ ~c.replacectx /\ c.batch = 1))
                /\ (c.defeh => (c.scopemw /\ (c.provclosed \/ c.mwfail > 0) /\ ~c.outer /\ ~c.closefail))
+               /\ (c.mwpanic => (c.mwfail > 0 /\ c.scopemw /\ ~c.provclosed /\ c.batch = 1))
                /\ (c.reqcancel => (c.scopemw /\ ~c.provclosed /\ c.mwfail = 0 /\ c.handler \in {"ok", "handle"} /\ c.registered
                                    /\ c.method = "ok" /\ c.batch = 1))
 
@@ -70,7 +71,7 @@ Mw(r) == /\ pc[r] = "mw"
             ELSE /\ pc' = [pc EXCEPT ![r] = "handler"] /\ UNCHANGED <<ms, bad, nextScope>>
          /\ UNCHANGED emitted
 ErrMw(r) == pc[r] = "errmw"
-            /\ (IF DefaultEH(ms.cfg) THEN UNCHANGED <<ms, bad>> ELSE Feed([ev |-> "errh", rq |-> r, kind |-> "mw"]))
+            /\ (IF DefaultEH(ms.cfg) \/ MwPanic(ms.cfg) THEN UNCHANGED <<ms, bad>> ELSE Feed([ev |-> "errh", rq |-> r, kind |-> "mw"]))
             /\ pc' = [pc EXCEPT ![r] = "close"] /\ UNCHANGED <<nextScope, emitted>>
 Handler(r) ==
     /\ pc[r] = "handler"
